@@ -359,6 +359,19 @@ UNITS = [{
                 (H, 'into_vcell(vcell) is Ptr ==> r == into_vcell(vcell) && final(self).cells() == old(self).cells() && final(self).gcmap() == old(self).gcmap()'),
             ],
         },
+        'impl Heap::get_at_index': {
+            'props': H + ['C06'], 'requires': ['ptr < self.len()'],
+            'ensures': [(H, '*r == self.cells()[ptr as int]')],
+        },
+        'impl Heap::get_at_index_mut': {
+            'props': H + ['C06'], 'requires': ['ptr < old(self).len()'],
+            # hands out exactly one cell: nothing else of the heap changes through the returned reference
+            'ensures': [(H, '*r == old(self).cells()[ptr as int]'),
+                        (H, 'final(self).cells() == old(self).cells().update(ptr as int, *final(r))'),
+                        (H, 'final(self).gcmap() == old(self).gcmap() && final(self).free_cells() == old(self).free_cells() && final(self).table() == old(self).table() && final(self).chunk() == old(self).chunk()')],
+        },
+        'impl Heap::capacity': {'props': H, 'ensures': [(H, 'r == self.len()')]},
+        'impl Heap::free_size': {'props': H, 'ensures': [(H, 'r == self.free_cells().len()')]},
         'impl Heap::sweep': {
             'props': HS + ['C06'],
             'requires': ['old(self).wf()'],
